@@ -58,6 +58,14 @@ def _sizes(params, datas):
     sizes = params["sizes"]
     for d, n in zip(datas, sizes):
         assume(len(d) == n)
+    if params.get("alpha"):
+        # line-structure alphabet: every byte is LF, CR or 'a' (small enough to stay exhaustive even
+        # if an implementation realises the bytes, e.g. by calling a C-level splitter)
+        ok = True
+        for d in datas:
+            for b in d:
+                ok = ok & ((b == 10) | (b == 13) | (b == 97))
+        assume(ok)
     return sizes
 
 
@@ -245,6 +253,9 @@ def partitions(tier, seed):
                 P.append(dict(name="step/%s/t%d" % (s, t), harness="h_step",
                               params=dict(sizes=s, target=t, steps=1), budget=100,
                               bounds="sizes %s, member %d, any position, one op of %d kinds, n in -3..4" % (s, t, len(OPS))))
+        for s, t in (([2, 1], 0), ([3, 2], 0), ([2, 3], 1)):
+            P.append(dict(name="step-crlf/%s/t%d" % (s, t), harness="h_step", params=dict(sizes=s, target=t, steps=1, alpha=True), budget=100,
+                          bounds="sizes %s, member %d, bytes over {LF, CR, 'a'}, one op" % (s, t)))
         P.append(dict(name="inter/[2,2]", harness="h_inter", params=dict(sizes=[2, 2]), budget=100, bounds="3 interleaved ops on 2 members"))
         P.append(dict(name="inter/[1,2]-fn", harness="h_inter", params=dict(sizes=[1, 2], form="filename"), budget=100, bounds="3 interleaved ops, filename form"))
     else:
@@ -260,6 +271,10 @@ def partitions(tier, seed):
                     P.append(dict(name="step2/[%d,%d]/t%d" % (a, b, t), harness="h_step",
                                   params=dict(sizes=[a, b], target=t, steps=2), budget=600,
                                   bounds="two ops from any position"))
+        for s in ([2, 2], [3, 3], [4, 1], [1, 4]):
+            for t in (0, 1):
+                P.append(dict(name="step2-crlf/%s/t%d" % (s, t), harness="h_step", params=dict(sizes=s, target=t, steps=2, alpha=True), budget=900,
+                              bounds="sizes %s, bytes over {LF, CR, 'a'}, two ops" % s))
         for s in ([1, 3, 2], [2, 0, 3]):
             for t in (0, 1, 2):
                 P.append(dict(name="step1-3m/%s/t%d" % (s, t), harness="h_step", params=dict(sizes=s, target=t, steps=1, form="filename"), budget=300, bounds="3 members filename form"))
